@@ -22,6 +22,8 @@ def specs_for(chk, n, profile):
             opts = {'mlp_res': True}
         if i % 9 == 7 and profile.get('variants', True):
             opts['shared_pad'] = True
+        if i % 12 == 10 and profile.get('variants', True):
+            opts['shared_bn'] = True
         if i % 11 == 8 and profile.get('variants', True):
             opts['reuse_dw'] = True
         if excl_hint(profile, i):
